@@ -176,13 +176,19 @@ func verifC22Pipeline(algorithm Algorithm) {
 	for i := 0; i < count; i++ {
 		n := verifC22Range(0, maxLen)
 		var payload []byte
-		if big > 0 && vBool() {
-			// fixed content (block coding depends on it): a short and a long
-			// message with repetitions, different for every message
-			vCover("big")
-			n = 40
-			if vBool() {
+		if big > 0 {
+			// fixed content only (DEFLATE block coding beyond 32 bytes depends
+			// on the content): a tiny, a short and a longer message with
+			// repetitions, different for every message
+			switch vChoose(3) {
+			case 0:
+				n = 1
+			case 1:
+				n = 40
+				vCover("big")
+			default:
 				n = big
+				vCover("big")
 			}
 			payload = make([]byte, n)
 			for j := range payload {
